@@ -200,8 +200,15 @@ class REINFORCE(RL4COLitModule):
             # setup baseline first
             loaded.setup()
             loaded.post_setup_hook()
-            # load baseline state dict
-            state_dict = torch.load(checkpoint_path, map_location=map_location)["state_dict"]
+            # load baseline state dict: the checkpoint is a full training checkpoint (not only
+            # weights), and a file object was already consumed by the first load
+            if hasattr(checkpoint_path, "seek"):
+                checkpoint_path.seek(0)
+            state_dict = torch.load(
+                checkpoint_path,
+                map_location=map_location,
+                weights_only=kwargs.get("weights_only", False),
+            )["state_dict"]
             # get only baseline parameters
             state_dict = {k: v for k, v in state_dict.items() if "baseline" in k}
             state_dict = {k.replace("baseline.", "", 1): v for k, v in state_dict.items()}
